@@ -68,7 +68,7 @@ def CompositePack_Write : List String :=
   ["this.AbstractPack.Write(dout)", "sz := len(this.pack)", "dout.WriteShort(int16(sz))", "for i < sz {", "WritePack(dout, this.pack[i])", "}"]
 
 def CompositePack_Read : List String :=
-  ["this.AbstractPack.Read(din)", "sz := int(din.ReadShort())", "this.pack = make([]Pack, sz)", "for i < sz {", "this.pack[i] = ReadPack(din)", "}"]
+  ["this.AbstractPack.Read(din)", "sz := int(din.ReadShort())", "din.CheckCount(sz, 2)", "this.pack = []Pack{}", "for i < sz {", "this.pack = append(this.pack, ReadPack(din))", "}"]
 
 def HitMapPack1_Write : List String :=
   ["this.AbstractPack.Write(dout)", "dout.WriteByte(1)", "for i < HITMAP_LENGTH {", "dout.WriteShort(int16(this.Hit[i]))", "dout.WriteShort(int16(this.Error[i]))", "}"]
@@ -221,7 +221,7 @@ def StatErrorPack_SetRecordsArray : List String :=
   ["out := io.NewDataOutputX()", "sz := len(items)", "out.WriteShort(int16(sz))", "for i < sz {", "this.WriteRec(out, items[i])", "}", "this.Records = out.ToByteArray()", "this.RecordCount = int32(sz)"]
 
 def StatErrorPack_GetRecords : List String :=
-  ["in := io.NewDataInputX(this.Records)", "sz := int(in.ReadShort())", "for i < sz {", "items[i] = this.ReadRec(in)", "}", "return items"]
+  ["in := io.NewDataInputX(this.Records)", "sz := int(in.ReadShort())", "in.CheckCount(sz, 18)", "for i < sz {", "items[i] = this.ReadRec(in)", "}", "return items"]
 
 def StatServicePack_SetRecords : List String :=
   ["o := io.NewDataOutputX()", "o.WriteShort(int16(size))", "for i < size {", "this.WriteRec(o, items.NextElement().(*ServiceRec))", "}", "this.Records = o.ToByteArray()", "this.RecordCount = size", "return this"]
@@ -236,6 +236,6 @@ def SMDownCheckPack_SetRecords : List String :=
   ["out := io.NewDataOutputX()", "sz := len(items)", "out.WriteShort(int16(sz))", "for i < sz {", "this.WriteRec(out, items[i])", "}", "this.Records = out.ToByteArray()", "this.RecordCount = int32(sz)"]
 
 def SMDownCheckPack_GetRecords : List String :=
-  ["in := io.NewDataInputX(this.Records)", "sz := int(in.ReadShort())", "for i < sz {", "items[i] = this.ReadRec(in)", "}", "return items"]
+  ["in := io.NewDataInputX(this.Records)", "sz := int(in.ReadShort())", "in.CheckCount(sz, 7)", "for i < sz {", "items[i] = this.ReadRec(in)", "}", "return items"]
 
 end Packs.Skeletons
